@@ -14,7 +14,9 @@ class C11(Cfg):
     design_ref = "DESIGN.md §6 C11, App. A.3, A.5, A.6"
     technique = ("Lean 4 invariant proof over the executable model of local writes, writer batches and pulls (Defects.none) + decide-checked "
                  "trace for the code as it is + correspondence run of the model against 3-4 real instances with deletions racing with pulls + "
-                 "an independent oracle on every dump (a peer that stores a deletion record never shows the row again)")
+                 "an independent oracle on every dump (a peer that stores the deletion record of a row or of a reference never shows that row / reference again) and after "
+                 "quiescence (record everywhere, row and reference nowhere); three of five histories are scenarios: reference deletion racing with an unaware edit of the "
+                 "source row, deletion by a member that received the all-rows right at a later date, deletion reaching a peer that holds an older version")
     level_text = ("Theorems (Lean 4; any number of peers, any op sequence of creations, updates, room moves, reference changes, deletions, writer batches, "
                   "recomputations, pulls in any order and rounds): with ingestion consulting the deletion log and a deletion record removing every version of its row "
                   "(Defects.none) no replica ever stores a row whose id carries a deletion record on that replica (also not behind an open writer batch), deletion records are never forgotten, "
@@ -23,14 +25,14 @@ class C11(Cfg):
                   "For the code as it is the statement is FALSE: the schedule delete@A, B<-A, B<-C, A<-B brings the row back on B and on A (decide-checked model trace, replayed on three real instances: corpus/C11).")
     level_note = ("Trusted: Lean kernel (+propext, Classical.choice, Quot.sound), the hand-written model lean/DiscretModel/Model/Sync.lean and the harness. "
                   "Modelled and exercised: deletion.rs, validate_deletion, delete_nodes/validate_node_deletions/NodeDeletionEntry::delete_all, filter_existing, add_nodes, synchronise_day. "
-                  "Defects.none is stronger than the statement (a record removes newer versions too, in every room). Reference deletions are modelled and exercised; the invariant is about rows.")
+                  "Defects.none is stronger than the statement (a record removes newer versions too, in every room). Reference deletions and dated rights (EntityRight::valid_from) are modelled and exercised; the proved invariant is about rows.")
     trusted_base = [
         "hand-written model lean/DiscretModel/Model/Sync.lean, tied by the correspondence run (dv-sync vs dmodel_sync)",
         "harness/sync (see C03)",
     ]
     assumptions = [
         "created rows get fresh ids (the code draws 16-byte random uids)",
-        "rooms, members and rights are fixed during a case",
+        "the room definition is fixed during a case (its rights may be dated: a member can hold the own-rows right first and the all-rows right from a later date on)",
     ]
 
     def streams(self, tier, seed, work, dv):
